@@ -301,7 +301,8 @@ class Impl:
                 return {"ok": None if r is None else r.value}
         except Exception as e:
             for cls, nm in ((IndexError, "IndexError"), (ValueError, "ValueError"), (TypeError, "TypeError"),
-                            (KeyError, "KeyError"), (ArithmeticError, "ArithmeticError")):
+                            (KeyError, "KeyError"), (OverflowError, "OverflowError"),
+                            (ArithmeticError, "ArithmeticError")):
                 if isinstance(e, cls):
                     return {"err": nm}
             return {"err": type(e).__name__}
@@ -328,6 +329,8 @@ def _sampled_path(off, si, pos):
 
 def classify_sampled_index(off, si, pos, mode):
     T = tolerances()
+    if F(si) == 0:
+        return "exact"          # -inf / nan / +inf: no rounding involved in which of the three it is
     X, exact = _sampled_path(off, si, pos)
     if X < 0:
         return "exact" if exact else "separated"     # the sign of a float difference/quotient is always right
@@ -648,6 +651,14 @@ def correspondence(ctx):
     dist["marginal_that_differ"] = marginal_differ
     dist["file_reopens"] = impl.reopens
     disagreements.sort(key=lambda d: len(core.canon(d.case)))
+    # histories: configuration changed between the questions, through other descriptor objects (c07_session.py)
+    s_cmp, s_n, s_dis, s_dist = _sess.run_correspondence(ctx, ctx.budget(250, 3000))
+    compared += s_cmp
+    dist["sessions"] = s_dist
+    s_dis.sort(key=lambda d: len(core.canon(d.case)))
+    disagreements = s_dis[:20] + disagreements
+    for k in range(s_n - len(s_dis)):
+        seen.add("session#%d" % k)
     samples = [{"case": cases[k], "model": model[k]} for k in
                sorted(ctx.rng.sample(range(len(cases)), min(6, len(cases))))]
     return {"evaluations": compared, "distinct_nontrivial": len(seen),
@@ -659,7 +670,11 @@ def correspondence(ctx):
                     "between, a hair beside, before, after the samples; all IndexMode members and aliases, both "
                     "SliceModes, unknown modes, negative intervals; position_at / tick_at / axis incl. negative "
                     "indices. Implementation = real nixio dimensions in one real HDF5 file, reopened every 1500 calls. "
-                    "non-trivial = error, None, non-zero index or non-empty list; distinct by canonical JSON",
+                    "non-trivial = error, None, non-zero index or non-empty list; distinct by canonical JSON. "
+                    "Sessions (c07_session.py): histories of 8-32 operations on the 1-3 dimensions of a fresh array - "
+                    "offset / interval / ticks / labels / link / unit / label changes and rewrites of the linked source "
+                    "through one descriptor object, questions through other descriptor objects that were created (and "
+                    "used) before the change; every answer compared with the model's run of the same history",
             "samples": samples, "distribution": dist, "disagreements": disagreements, "exhaustive": False}
 
 
@@ -738,13 +753,20 @@ def in_ref_band(c, P):
 
 def check_case(impl, case):
     """Failure if the implementation violates C07 on this case, else None"""
+    if _dim_of(strip(case)) is None:
+        return None
+    return judge(case, impl.run(case))
+
+
+def judge(case, got):
+    """the property itself on one conversion: `case` names the configuration and the question, `got` is what the
+    implementation answered (however the configuration was reached); Failure or None"""
     c = strip(case)
     op = c[0]
     dim = _dim_of(c)
     if dim is None:
         return None
     coord, n, site = dim
-    got = impl.run(case)
     if op.endswith("index_of"):
         mode = CANON_MODE.get(c[-1])
         if mode is None:
@@ -960,6 +982,10 @@ def _run_oracle_case(impl, c):
 def _is_band_failure(case):
     """the narrow class of the open known finding: an index_of / range_indices case one of whose positions lies
     strictly inside the *reference* band (atol 1e-8, rtol 1e-12) of a sample without being on it"""
+    if isinstance(case, dict) and "question_as_case" in case:
+        case = case["question_as_case"]
+    if not isinstance(case, list) or not case:
+        return False
     c = strip(case)
     if not isinstance(c, list) or not c or not isinstance(c[0], str):
         return False
@@ -980,8 +1006,10 @@ def oracle(ctx, broken, hints):
     n = 40000 if broken else ctx.budget(4000, 40000)
     cases += gen_oracle_cases(ctx, n)
     cases += gen_roundtrip_cases(ctx, n // 4)
+    cases = [c for c in cases if c[0] != "session"]
+    s_evals, s_failures = _sess.run_oracle(ctx, 2500 if broken else ctx.budget(200, 2500), hints[:50])
     impl = Impl(ctx, "oracle")
-    failures = []
+    failures = list(s_failures)
     seen = set()
     band_dev = 0
     try:
@@ -1000,9 +1028,12 @@ def oracle(ctx, broken, hints):
     finally:
         impl.close()
     failures.sort(key=lambda f: (_is_band_failure(f.input), len(core.canon(f.input))))
-    return {"evaluations": len(cases), "failures": failures, "in_reference_band_deviations": band_dev,
+    return {"evaluations": len(cases) + s_evals, "failures": failures, "in_reference_band_deviations": band_dev,
+            "session_questions": s_evals,
             "rule": "order-theoretic definitions evaluated in Fractions on the exact values of the doubles; finite "
-                    "dimensions by literal linear scan; round trips on the implementation's own floats"}
+                    "dimensions by literal linear scan; round trips on the implementation's own floats; sessions: "
+                    "the same definitions for the configuration in force when a live descriptor object is asked, "
+                    "after changes made through other descriptor objects (the harness's own last-write-wins record)"}
 
 
 def matches_known(entry, failure):
@@ -1021,12 +1052,16 @@ def reproduces(ctx, entry):
 
 
 def replay_failure(ctx, fj):
+    if isinstance(fj.get("input"), dict) and "session" in fj["input"]:
+        return _sess.replay(ctx, fj["input"])
     impl = Impl(ctx, "replay")
     try:
         return _run_oracle_case(impl, fj["input"])
     finally:
         impl.close()
 
+
+from . import c07_session as _sess  # noqa: E402  (sibling module; uses the helpers above at call time)
 
 READY = True
 MANIFEST = {
